@@ -29,6 +29,9 @@ import re
 import subprocess
 
 
+UNASSIGNED = object()      # environment value of a local that is declared but not yet assigned on this path
+
+
 class Untranslatable(Exception):
     pass
 
@@ -188,6 +191,8 @@ class Translator:
         if k == "DeclRefExpr":
             name = n["referencedDecl"]["name"]
             if name in env:
+                if env[name] is UNASSIGNED:
+                    raise Untranslatable("local %s may be read before it is assigned" % name)
                 return env[name]
             if name in self.consts:
                 return self.consts[name]
@@ -380,7 +385,10 @@ class Translator:
                     pass
                 init = [c for c in v.get("inner", []) if c.get("kind") not in ("FullComment",)]
                 if not init:
-                    raise Untranslatable("uninitialised local %s" % name)
+                    # declared without a value: every path has to assign it before it is read (checked at the reads; an `if`
+                    # translates its continuation once per branch, so "assigned in every branch" needs no extra analysis)
+                    out_env[name] = UNASSIGNED
+                    continue
                 r = self.rep(v)
                 e = self.boolify(init[0], out_env) if r == "bool" else self.expr(init[0], out_env)
                 lets.append("let %s := %s" % (name, e))
@@ -422,6 +430,9 @@ class Translator:
             name = lhs["referencedDecl"]["name"]
             if name not in env:
                 raise Untranslatable("assignment to unknown name %s" % name)
+            if env[name] is UNASSIGNED:
+                env = dict(env)
+                env[name] = name
             return "let %s := %s\n%s" % (env[name], val, self.stmts(rest, env, ret_pack, depth))
         if lhs.get("kind") == "MemberExpr":
             base = lhs["inner"][0]
